@@ -9,9 +9,28 @@ from ..report import Report
 LEVEL = "model_checking"
 
 
+MC = {}
+
+
 def build_jobs(pid, t):
     """Every program x {default, fast} x {unc on, off} (C02); unc on only for C03/C06."""
     sources = progs.corpus(pid, t, seed())
+    if pid == "C02" and not os.environ.get("VERIF_REPLAY"):
+        # refinement layer explored by TLC (spec/MC_Synth.tla): boolean programs from ExprGen; every program is
+        # also compiled for real below, the lists on which the MODEL breaks an invariant first of all
+        import random
+        from . import mcsynth
+        from .c04 import gen_trees
+        rng = random.Random(seed())
+        with Scratch("C02mc") as sc:
+            trees, _ = gen_trees(sc, 4 if t == "quick" else 5, 0, 9)
+            rng.shuffle(trees)
+            trees = trees[: (400 if t == "quick" else 4000)]
+            res, bad_srcs, all_srcs = mcsynth.run(sc, trees, rng, t == "quick")
+        MC.update(res)
+        rng.shuffle(all_srcs)
+        extra = bad_srcs + [s for s in all_srcs if s not in set(bad_srcs)][: (150 if t == "quick" else 3000)]
+        sources = sources + [{"src": s, "origin": "ExprGen-program"} for s in extra]
     jobs = []
     for k, s in enumerate(sources):
         for opt in ("default", "fast"):
@@ -97,6 +116,7 @@ def run(pid):
         "rule": "one case = one real compile (program x optimizer x uncompute); non-trivial = >=2 gates and >=1 ancilla/scratch qubit; every case is checked on all 2^n input rows by TLC",
         "input_rows_checked": rows,
         "compile_status": st, "verdict_status": vst, "programs": len({j['src'] for j in jobs}),
+        "model_checking_of_Synth": MC,
         "refinement": {"compiles_replayed_through_Synth_model": len(scases),
                        "conform": sum(1 for x in sverd.values() if x[0] == "conform"),
                        "drift": sorted({f"{x[1]}" for x in sverd.values() if x[0] == "drift"})[:10],
